@@ -325,7 +325,7 @@ func (ex *Exec) addPC(c *Term) {
 
 // branch decides a boolean, forking if both outcomes are feasible.
 func (ex *Exec) fastEligible(t *Term) bool {
-	return t.vid >= 0 && t.vw == 8 && !ex.taint[t.vid] && t.size < 64
+	return t.vid >= 0 && t.vw == 8 && !ex.taint[t.vid] && t.size < 64 && !t.fp
 }
 
 func (ex *Exec) allFast(ts []*Term) bool {
@@ -1012,6 +1012,9 @@ func (ex *Exec) unop(in *ssa.UnOp, x Val) Val {
 			}
 			return mkInt(mkNeg(i.T), i.W, i.S)
 		case Float:
+			if i.T != nil {
+				return symFloat(fpNeg(i.T), i.W)
+			}
 			return Float{V: -i.V, W: i.W}
 		}
 	case token.XOR:
@@ -1048,6 +1051,32 @@ func (ex *Exec) binop(op token.Token, x, y Val, xt types.Type) Val {
 		panic(engineError("bool op " + op.String()))
 	case Float:
 		b := y.(Float)
+		if (a.T != nil || !a.U) && (b.T != nil || !b.U) && (a.T != nil || b.T != nil) {
+			at, bt := a.term(), b.term()
+			switch op {
+			case token.ADD:
+				return symFloat(fpArith("fp.add", at, bt), a.W)
+			case token.SUB:
+				return symFloat(fpArith("fp.sub", at, bt), a.W)
+			case token.MUL:
+				return symFloat(fpArith("fp.mul", at, bt), a.W)
+			case token.QUO:
+				return symFloat(fpArith("fp.div", at, bt), a.W)
+			case token.EQL:
+				return mkBool(fpCmp("fp.eq", at, bt))
+			case token.NEQ:
+				return mkBool(mkNot(fpCmp("fp.eq", at, bt)))
+			case token.LSS:
+				return mkBool(fpCmp("fp.lt", at, bt))
+			case token.LEQ:
+				return mkBool(fpCmp("fp.leq", at, bt))
+			case token.GTR:
+				return mkBool(fpCmp("fp.gt", at, bt))
+			case token.GEQ:
+				return mkBool(fpCmp("fp.geq", at, bt))
+			}
+			panic(engineError("float op " + op.String()))
+		}
 		if a.U || b.U {
 			unsupported("arithmetic on a float parsed from symbolic digits")
 		}
@@ -1522,6 +1551,15 @@ func (ex *Exec) valEq(x, y Val) Bool {
 		return mkBool(mkEq(a.term(), b.term()))
 	case Float:
 		b, ok := y.(Float)
+		if ok && (a.T != nil || b.T != nil) && (a.T != nil || !a.U) && (b.T != nil || !b.U) {
+			if a.W != b.W {
+				return Bool{C: false}
+			}
+			return mkBool(fpCmp("fp.eq", a.term(), b.term()))
+		}
+		if ok && (a.U || b.U) {
+			unsupported("equality of floats parsed from symbolic digits")
+		}
 		return Bool{C: ok && a.V == b.V}
 	case Str:
 		b, ok := y.(Str)
